@@ -46,7 +46,7 @@ def check(ctx):
     ctx.doc('R4', 'the corrected trajectory is rebuilt in displacement mode from displacements - drift with species, lattice, '
                   'metadata, base positions and time step of the source')
     ctx.floor('R1', 2)
-    ctx.floor('R2', 3)
+    ctx.floor('R2', 1)
     ctx.floor('R3', 1)
     ctx.floor('R4', 7)
     fd = ctx.fn(f'{TRAJ}.drift')
